@@ -707,3 +707,34 @@ def norm(e: Optional[ast.AST]) -> str:
     if e is None:
         return ''
     return ' '.join(ast.unparse(e).split())
+
+
+def accessor_value(f: 'FuncInfo') -> Optional[ast.expr]:
+    """The expression a trivial zero-argument accessor stands for (``return self._x``, the ``None``-guarded label accessor,
+    or a lazily created attribute), else None."""
+    if isinstance(f.node, ast.Lambda) or len(f.params) != 1:
+        return None
+    body = [s for s in f.node.body
+            if not (isinstance(s, ast.Expr) and isinstance(s.value, ast.Constant) and isinstance(s.value.value, str))]
+    # ``if self._x is None: return None`` + ``return self._x.Y``  (StateMachine.state)
+    if (len(body) == 2 and isinstance(body[0], ast.If) and isinstance(body[1], ast.Return)
+            and len(body[0].body) == 1 and isinstance(body[0].body[0], ast.Return) and not body[0].orelse
+            and isinstance(body[0].body[0].value, ast.Constant) and body[0].body[0].value.value is None
+            and isinstance(body[0].test, ast.Compare) and isinstance(body[0].test.ops[0], ast.Is)):
+        body = [body[1]]
+    # lazily created attribute: ``if self._x is None: self._x = <new object>`` + ``return self._x`` names the location self._x
+    if (len(body) == 2 and isinstance(body[0], ast.If) and isinstance(body[1], ast.Return) and body[1].value is not None
+            and len(body[0].body) == 1 and not body[0].orelse and isinstance(body[0].body[0], ast.Assign) and len(body[0].body[0].targets) == 1
+            and is_self_attr(body[0].body[0].targets[0]) and norm(body[0].body[0].targets[0]) == norm(body[1].value)
+            and isinstance(body[0].test, ast.Compare) and len(body[0].test.ops) == 1 and isinstance(body[0].test.ops[0], ast.Is)
+            and norm(body[0].test.left) == norm(body[1].value) and norm(body[0].test.comparators[0]) == 'None'):
+        body = [body[1]]
+    if len(body) != 1 or not isinstance(body[0], ast.Return) or body[0].value is None:
+        return None
+    v = body[0].value
+    for n in ast.walk(v):
+        if isinstance(n, ast.Name) and n.id not in ('self', 'None', 'True', 'False'):
+            return None
+        if isinstance(n, (ast.Call,)) and (n.args or n.keywords):
+            return None
+    return v
